@@ -1,4 +1,4 @@
-from decimal import Decimal
+from decimal import Decimal, InvalidOperation
 from fractions import Fraction
 
 from rtamt.antlr.parser.stl.StlParserVisitor import StlParserVisitor
@@ -22,6 +22,12 @@ from rtamt.exception.exception import RTAMTException
 
 
 class StlAstParserVisitor(LtlAstParserVisitor, StlParserVisitor):
+
+    def literal_to_fraction(self, text):
+        try:
+            return Fraction(Decimal(text))
+        except (InvalidOperation, ValueError, TypeError):
+            return Fraction(self.literal_to_float(text))
 
     def __init__(self):
 
@@ -116,7 +122,7 @@ class StlAstParserVisitor(LtlAstParserVisitor, StlParserVisitor):
 
         val = self.const_val_dict[const_name]
 
-        out = Fraction(Decimal(val))
+        out = self.literal_to_fraction(val)
 
         if ctx.unit() is None:
             unit = 'default'
@@ -127,7 +133,7 @@ class StlAstParserVisitor(LtlAstParserVisitor, StlParserVisitor):
 
 
     def visitIntervalTimeLiteral(self, ctx):
-        time_bound = Fraction(Decimal(ctx.literal().getText()))
+        time_bound = self.literal_to_fraction(ctx.literal().getText())
         if ctx.unit() is None:
             unit = ''
         else:
